@@ -152,10 +152,28 @@ class DefRecorder:
             if isinstance(exc, KeyError) and exc.args and isinstance(exc.args[0], list):
                 ret = {'k': 'list', 'v': list(exc.args[0])}
         isnew = False
+        ghosts = []
         if out == 'ok':
             isnew = all(r is not x for x in self.live.values()) and isinstance(r, self.C.Definition)
             self.live[new] = r
-        self.ev('def.derive', h=h, c=c, new=new, out=out, ret=ret, isnew=isnew, post=self.post())
+            # a name of a source that is not in the result must be unknown to the result in every respect:
+            # reading a cell of it raises KeyError
+            robjs, rprops = set(r.objects), set(r.properties)
+            srcs = [d] + ([oth] if oth is not None else [])
+            for n in {x for s_ in srcs for x in (s_.objects + s_.properties)}:
+                if n not in robjs and r.properties:
+                    try:
+                        r[n, r.properties[0]]
+                        ghosts.append(['object', n])
+                    except KeyError:
+                        pass
+                if n not in rprops and r.objects:
+                    try:
+                        r[r.objects[0], n]
+                        ghosts.append(['property', n])
+                    except KeyError:
+                        pass
+        self.ev('def.derive', h=h, c=c, new=new, out=out, ret=ret, isnew=isnew, ghosts=ghosts[:5], post=self.post())
         return out
 
     def freeze(self, h, ch):
